@@ -298,6 +298,7 @@ def run(ctx):
            chain_apps[0] if chain_apps else add_atom)
 
     # ------------------------------------------------------------------ R5
+    common.check_bridge_flag_written(ctx, 'C01.R5', prog)
     common.check_bridge_not_titrated(ctx, 'C01.R5', prog)
 
     # ------------------------------------------------------------------ R6
